@@ -110,7 +110,8 @@ def half_cell_input(ghex, a, b):
                     x = _dec(t)
                 except Exception:
                     continue
-                for v in (x * scale, x / gs):       # HotPixel multiplies by the scale, makePrecise divides by the grid size when it is > 1
+                # HotPixel multiplies by the scale, makePrecise divides by the grid size when it is > 1
+                for v in (x * scale, (x / gs) if (gs > 0 and gs != float("inf")) else float("nan")):
                     if v != v or abs(v) > 2.0 ** 52:
                         continue
                     f = v - math.floor(v)
@@ -242,7 +243,12 @@ def run(ctx):
         "GeometryCollection inputs are only given to setPrecision and unary union; Z/M ordinates and curved types are not generated",
     ])
     # translator tie: HotPixel's tests are regenerated from the current C++ and proved equal to Model/Precision/HotPixel.lean
-    proved = ctx.prove_generated([("hotpixel", "GeosModel/Generated/HotPixel.lean", "GeosModel.Props.C04Gen")], PROPS, extra_targets=(DRV,))
+    # and so are the rounding rule and the precision-model arithmetic: util::java_math_round / util::round / sym_round (src/util/math.cpp,
+    # include/geos/util/math.h), PrecisionModel::makePrecise / snapToInt / setScale (src/geom/PrecisionModel.cpp) vs Model/Precision/Round.lean
+    # (exact layer over Rat and binary64 layer over F64.Val); stream `precise` exercises the same functions bit for bit
+    proved = ctx.prove_generated([("hotpixel", "GeosModel/Generated/HotPixel.lean", "GeosModel.Props.C04Gen"),
+                                  ("precision_round", "GeosModel/Generated/PrecisionRound.lean", "GeosModel.Props.C04GenRound")],
+                                 PROPS, extra_targets=(DRV,))
     ok, out = verif.build_geos("rel")
     if not ok:
         ctx.violation("GEOS does not build with -DGEOS_VERIF", {"kind": "build-failure", "log": out[-3000:]}, nofail=True)
